@@ -100,6 +100,9 @@ func (s *sBackoff) dial(ctx context.Context, _ string) (net.Conn, error) {
 }
 
 func (s *sBackoff) Op(f []string) string {
+	if s.cc == nil && f[0] != "new" && f[0] != "newdef" {
+		return "nochan" // (a shrunk case may have lost its `new`)
+	}
 	switch f[0] {
 	case "new", "newdef": // new <base ns> <mult float64 bits> <jitter float64 bits> <max ns> <minConnectTimeout ns> | newdef (default dial options)
 		s.lis = bufconn.Listen(1 << 16)
